@@ -211,6 +211,16 @@ pub fn run(tier: &str, seed: u64) -> i32 {
             },
         );
     }
+    // wide or-groups (matrix guard at 256 entries, column keys beyond ASCII)
+    gen::drive(
+        &mut report,
+        14,
+        if tier == "thorough" { 400 } else { 40 },
+        || (gen::rule_wide(), prop::collection::vec(any::<u16>(), 10)),
+        |(rule, picks): &(RuleSpec, Vec<u16>)| vec![make_case(rule, gen::wide_docs(rule, picks))],
+        judge,
+        |_, rep| rep.label("wide_or_group_rule"),
+    );
     report.finish()
 }
 
